@@ -214,3 +214,64 @@ func HarnessC03() {
 	verifAssert(!(res.Err != nil && res.Membership == checkgroup.IsMember), "C03: result carries an error and says allowed")
 	verifAssert(res.Err != nil || sameDecision(res, res0), "C03: a failed storage call changed the answer without an error")
 }
+
+func pow(b, e int) int {
+	r := 1
+	for i := 0; i < e; i++ {
+		r *= b
+	}
+	return r
+}
+
+// HarnessC15: every check returns after a bounded number of storage calls,
+// also when a storage call fails or the request is cancelled at any storage
+// call; after the call returned and the request context was released no
+// goroutine started on its behalf remains.
+func HarnessC15() {
+	w, qo, qr, qs := symWorld()
+	ctx, cancel := context.WithCancel(context.Background())
+	deps := newDeps(w)
+	maxCalls := verifParam("maxCalls")
+	verifCancel = cancel
+	verifCancelAt, verifFailAt, verifPersistent = 0, 0, false
+	cls := "plain"
+	switch verifChoice(3) {
+	case 1:
+		// cancellation before the start (0) or during storage call c
+		c := verifIntRange(0, maxCalls)
+		if verifConcretizeBool(verifEq(c, 0)) {
+			cancel()
+		} else {
+			verifCancelAt = c
+		}
+		cls = "cancelled"
+	case 2:
+		verifFailAt = verifIntRange(1, maxCalls)
+		verifPersistent = verifBool()
+		cls = "storage-fault"
+	}
+	if w.shape.hasTTU() {
+		cls += "+traverse"
+	}
+	if w.shape.hasNot {
+		cls += "+negation"
+	}
+	verifTag(cls)
+	verifGoroutineMark()
+	res := runCheck(ctx, deps, w.tuple(qo, qr, qs), 0)
+	verifReach("c15.returned")
+	calls := verifCalls
+	verifCancelAt, verifFailAt, verifPersistent, verifCancel = 0, 0, false, nil
+	nodes := 3 + len(w.shape.rels) + len(w.rows)
+	verifAssert(calls <= pow(nodes, w.maxDepth), "C15: number of storage calls exceeds (3+|relations|+K)^depth")
+	if ctx.Err() != nil {
+		verifCover("c15.cancelled-during-check")
+	}
+	_ = res
+	// release the request context and wait for quiescence
+	cancel()
+	leaked := verifQuiesce()
+	verifTag(cls + "+after-return")
+	verifAssert(leaked == 0, "C15: goroutines started by the check are still alive after it returned and its context was cancelled")
+	closeDeps(deps)
+}
